@@ -33,10 +33,20 @@ build_bins() {
   }
 }
 
+build_fuzz() {
+  # libFuzzer targets (thorough tier only); needs the nightly toolchain and cargo-fuzz.
+  # Not being able to build them is not an error of the check: the stage is skipped.
+  ( cd "$VERIF/harness" && cargo +nightly fuzz build -s none ) >"$VERIF/target/fuzz-build.log" 2>&1 || {
+    echo "note: fuzz targets could not be built (see target/fuzz-build.log); fuzz stages will be skipped" >&2
+    return 3
+  }
+}
+
 case "$what" in
+  fuzz) build_fuzz; exit 0 ;;
   harness) build_harness || exit 2 ;;
   bins) build_bins || exit 2 ;;
   all) build_harness || exit 2; build_bins || exit 2 ;;
-  *) echo "usage: build.sh harness|bins|all" >&2; exit 2 ;;
+  *) echo "usage: build.sh harness|bins|all|fuzz" >&2; exit 2 ;;
 esac
 exit 0
